@@ -27,6 +27,11 @@ Read == /\ Ev.t = "read" /\ seq' = Ev.n
                 THEN Fail("read-repair left a stale backup copy behind")
            ELSE IF Ev.rr /\ \E p \in Pos : a[p].ts # 0 /\ a[p].ts < b[p].ts THEN Fail("read-repair replaced a copy by an older one")
            ELSE Ok
+\* the owner holds the newest copy and its expiry has passed; older copies without expiry exist: the answer is not-found
+ReadExp == /\ Ev.t = "readexp" /\ seq' = Ev.n
+           /\ IF Ev.ret # "notfound"
+              THEN Fail("the newest copy has expired, yet the read answered " \o (IF Ev.ret = "val" THEN "with an older copy: " \o Ev.v ELSE Ev.ret))
+              ELSE Ok
 \* a newest copy whose expiry has passed may have been collected by the eviction worker before the result was read
 ExpiredVals == UNION {{x.val : x \in {y \in SeqSet(Ev.frags[j]) : y.exp}} : j \in 1..Len(Ev.frags)}
 MergeMayOrEvicted(F, g, X) == \A k \in Keys : LET S == {f[k] : f \in F} \ {None} IN
@@ -39,6 +44,6 @@ Merge == /\ Ev.t = "merge" /\ seq' = Ev.n
             IF ~MergeMayOrEvicted(F, g, ExpiredVals) THEN Fail("merging fragments did not keep the newest copy of a key")
             ELSE IF \E k \in Keys : g[k].ts # 0 /\ g[k] \notin {f[k] : f \in F} THEN Fail("merging fragments produced a copy nobody delivered")
             ELSE Ok
-TNext == i <= Len(Trace) /\ i' = i + 1 /\ (Reset \/ Read \/ Merge) /\ UNCHANGED <<lay, frags, phase>>
+TNext == i <= Len(Trace) /\ i' = i + 1 /\ (Reset \/ Read \/ ReadExp \/ Merge) /\ UNCHANGED <<lay, frags, phase>>
 TSpec == i = 1 /\ err = "" /\ seq = 0 /\ lay = [p \in Pos |-> None] /\ frags = <<>> /\ phase = "trace" /\ [][TNext]_<<tvars, vars>>
 =============================================================================
